@@ -20,8 +20,8 @@ META = {
 }
 
 H = os.path.join(V.VERIF, "harness", "C14")
-TYPES = {"i": "int", "u": "unsigned", "l": "long", "s": "short"}
-BITS = {"i": (32, True), "u": (32, False), "l": (64, True), "s": (16, True)}
+TYPES = {"i": "int", "u": "unsigned", "l": "long", "s": "short", "z": "std::size_t"}
+BITS = {"i": (32, True), "u": (32, False), "l": (64, True), "s": (16, True), "z": (64, False)}
 VALS = [0, 1, 2, 3, 5]
 LAYC = {"L": "DS::layout_left", "R": "DS::layout_right", "S": "DS::layout_stride"}
 MDA_KINDS = ["exts", "dyn", "ext", "map", "extv", "mapv", "extc", "mapc", "extcm", "mapcm", "exta", "mapa", "extva", "mapva", "extca", "mapca"]
@@ -46,7 +46,7 @@ def insts(thorough):
     out, ty = [], "iuls"
     core = [(), ("d",), ("d", "d"), (3, "d"), ("d", "d", "d"), (2, "d", 3), (2, 3), ("d", "d", "d", "d")]
     for n, p in enumerate(patterns(thorough)):
-        ts = ty if p in core else ty[n % 4]
+        ts = ty + "z" if p in core else ("iulsz"[n % 5] if thorough else ty[n % 4])    # z = std::size_t
         for t in ts:
             out.append((t, p))
     return out
@@ -156,7 +156,7 @@ def set_extra(cases):
 
 
 def all_insts(thorough):
-    I = all_insts(thorough)
+    I = insts(thorough)
     return I + [x for x in EXTRA["inst"] if x not in I]
 
 
@@ -177,11 +177,12 @@ def all_probe():
 
 
 def gen_sources(ctx, nparts, thorough, tag):
+    # (instantiations = generated set of the tier + whatever corpus / replay cases name)
     gd = ctx.path("gen_" + tag)
     os.makedirs(gd, exist_ok=True)
     for f in os.listdir(gd):
         os.remove(os.path.join(gd, f))
-    I = insts(thorough)
+    I = all_insts(thorough)
     parts = [I[k::nparts] for k in range(nparts)]
     srcs = []
     for k, part in enumerate(parts):
@@ -934,15 +935,93 @@ def judge(ctx, cases, io, mo, perr, stats):
             md = {s.split(" ", 1)[0]: kvs(s) for s in m.split(" | ")}
             if md["L"]["o"] != sd["L"] or md["R"]["o"] != sd["R"] or md["S"]["o"] != sd["S"] or md["L"]["rss"] != sd["prod"]:
                 ctx.notes.append("model/spec mismatch on %s" % c)
+            bad = [k for k in ("UR", "UL", "TR", "VB", "BP", "WR", "FT", "CX") if sd.get(k) != "1"]
+            if bad:     # the statements of the theorems evaluated on this case by the extracted model itself
+                stats["_selfcheck_failures"] = stats.get("_selfcheck_failures", 0) + 1
+                ctx.violation("corr:C14/model-selfcheck", {"broken": "corr:C14/model self-check %s (unrank round trip, loop traces in range and representable, "
+                              "validb, bump = stride, wrap identity, fits, cross-layout ==) fails in the extracted model" % bad, "case": c, "spec": spec[:500]}, found_input=False)
         if op == "ext" and spec and kvs(m).get("dyn") != spec.strip():
             ctx.notes.append("model/spec mismatch on %s" % c)
     return ndis, nviol
 
 
+def params_hook(ctx):
+    """Literals of the headers the model depends on are re-read from ctx.repo by tools/params.d/C14.py.  The shared translator writes
+    them into coq/Params_gen.v (as for every property); the C14 theories import the C14-only copy coq/C14_Params.v generated here by
+    the SAME function, so that regenerations of Params_gen.v by concurrently running checks of other properties do not invalidate
+    the compiled C14 files (coqc/coqchk 'inconsistent assumptions')."""
+    V.sh([sys.executable, os.path.join(V.VERIF, "tools", "extract_params.py"), ctx.repo], check=True)
+    ns, report = {}, {}
+    exec(open(os.path.join(V.VERIF, "tools", "params.d", "C14.py")).read(), ns)
+
+    def read(pth):
+        try:
+            return open(os.path.join(ctx.repo, pth), errors="replace").read()
+        except OSError:
+            return ""
+
+    def find(name, text, rx, default, conv=lambda q: int(q, 0)):
+        m = re.search(rx, text)
+        if m:
+            try:
+                v = conv(m.group(1)); report[name] = {"value": v, "source": "extracted"}; return v
+            except Exception:
+                pass
+        report[name] = {"value": default, "source": "DEFAULT (not located in source)"}
+        return default
+    lines = ["(* GENERATED by checks/C14.py (params_hook) with tools/params.d/C14.py from the repository sources on every check run -- do not edit.",
+             "   Literals of dune/common/std/*.hh the C14 model and theorems depend on. *)", "From Coq Require Import ZArith."]
+    lines += ns["lines"](ctx.repo, read, find, report)
+    content = "\n".join(lines) + "\n"
+    out = os.path.join(V.COQ, "C14_Params.v")
+    with V.locked("coq"):
+        old = open(out).read() if os.path.exists(out) else None
+        if old != content:
+            open(out, "w").write(content)
+    ctx.coverage["translated_constants"] = {k: v for k, v in report.items()}
+    dflt = [k for k, v in report.items() if "DEFAULT" in v["source"]]
+    if dflt:
+        ctx.notes.append("constants not located in the source (committed defaults used): %s" % dflt)
+
+
+RACE = "makes inconsistent assumptions over library"
+
+
+def coq_stage_retry(ctx, tries=4):
+    """coq/Params_gen.v(o) is shared by all properties and regenerated by every running check (also by checks of other
+    properties against scratch worktrees); lib/vcheck builds the dependencies and re-checks the property file in two separately
+    locked steps, so a concurrent regeneration in between shows up as 'inconsistent assumptions over library Params_gen'.
+    That is a transient infrastructure race, not a failing proof: rebuild and try again."""
+    import time
+    for k in range(tries):
+        n0 = len(ctx.viol)
+        ok = V.coq_stage(ctx)
+        log = (ctx.coq or {}).get("log", "")
+        if ok or RACE not in log:
+            return ok
+        del ctx.viol[n0:]
+        ctx.notes.append("coq stage retried after a concurrent regeneration of Params_gen.vo (attempt %d)" % (k + 1))
+        time.sleep(2 + 3 * k)
+    return V.coq_stage(ctx)
+
+
+def build_model_retry(ctx, tries=4):
+    import time
+    for k in range(tries):
+        try:
+            return V.build_model(ctx)
+        except V.BuildError as e:
+            if RACE not in str(e) or k == tries - 1:
+                raise
+            ctx.notes.append("model extraction retried after a concurrent regeneration of Params_gen.vo (attempt %d)" % (k + 1))
+            time.sleep(2 + 3 * k)
+
+
 def run(ctx):
-    V.coq_stage(ctx)
+    ctx.params_hook = params_hook
+    coq_stage_retry(ctx)
     thorough = not ctx.quick
-    model = V.build_model(ctx)
+    model = build_model_retry(ctx)
     ctx.log("model built")
     set_extra(corpus_cases())      # before any build: corpus-named instantiations are part of every tier
     from concurrent.futures import ThreadPoolExecutor
@@ -1002,6 +1081,7 @@ def run(ctx):
         "probes_compile": {"p%d" % k: (v is None) for k, v in perr.items()},
         "impl_model_disagreements": ndis, "oracle_rejections": nviol, "sanitizer_cases": nsan,
         "exhaustive": False, "traces_validated_against_impl": len(cases),
+        "model_selfcheck_cases": stats.get("map", 0), "model_selfcheck_failures": stats.get("_selfcheck_failures", 0),
     })
     ctx.assumptions += ["accessors: default_accessor, ShiftAcc (cell 2i+shift over a raw pointer), CellAcc (index handle into a global array); containers std::vector/std::array/std::deque; element types long, std::string",
                         "index values generated inside the range of index_type (machine-integer side condition c14_fits)",
@@ -1011,7 +1091,7 @@ def run(ctx):
 def replay(ctx, path):
     rep = json.load(open(path))
     case = rep["case"]
-    model = V.build_model(ctx)
+    model = build_model_retry(ctx)
     set_extra(corpus_cases() + [case])
     impl, perr = build_impl(ctx, not ctx.quick, False)
     mo = V.run_cases(ctx, [model], [case], tag="rmodel")
